@@ -1,4 +1,6 @@
 import Cppcms.C19.Lemmas
+import Cppcms.C19.JsonC11
+import Cppcms.C11.Props
 /-!
 # C19 — property theorems
 
@@ -20,7 +22,7 @@ open Cppcms Cppcms.C19 Cppcms.C19.Spec
 /-- **Loading from arbitrary bytes never reads outside the archive.**  For every type of the universe and
 every byte string, each interval the loader reads from `buffer_.c_str()` lies inside `[0, b.length)`, the
 cursor never leaves the buffer, and the outcome is a value or one of the four `archive_error`s. -/
-theorem load_safe (ty : Ty) (b : Bytes) (hb : b.length < 2 ^ 64) :
+theorem load_safe [JsonCodec] (ty : Ty) (b : Bytes) (hb : b.length < 2 ^ 64) :
     ReadsWithin b.length (loadArchive ty b).st.reads ∧ (loadArchive ty b).st.ptr ≤ b.length ∧
     ((∃ v s, loadArchive ty b = .ok v s) ∨ (∃ e s, loadArchive ty b = .err e s)) := by
   have h := load_safe_gen b hb ty St.init ⟨Nat.zero_le _, by intro iv hiv; cases hiv⟩
@@ -31,7 +33,7 @@ theorem load_safe (ty : Ty) (b : Bytes) (hb : b.length < 2 ^ 64) :
 
 /-- The same from any state reached earlier (several objects loaded from one archive, `serialize`
 methods calling `ar & a & b & …`): a safe state stays safe. -/
-theorem load_safe_resume (ty : Ty) (b : Bytes) (hb : b.length < 2 ^ 64) (s : St)
+theorem load_safe_resume [JsonCodec] (ty : Ty) (b : Bytes) (hb : b.length < 2 ^ 64) (s : St)
     (hs : s.ptr ≤ b.length ∧ ReadsWithin b.length s.reads) :
     (load b ty s).st.ptr ≤ b.length ∧ ReadsWithin b.length (load b ty s).st.reads :=
   load_safe_gen b hb ty s hs
@@ -48,7 +50,7 @@ theorem primitives_safe (b : Bytes) (hb : b.length < 2 ^ 64) (s : St)
 size, POD vectors a whole number of elements, arrays their length, `std::set`/`std::map` keys are strictly
 increasing and `std::multiset`/`std::multimap` keys non-decreasing with respect to the model's `operator<`
 (a strict weak order, `lt_asymm` / `lt_negTrans`), recursively -- for arbitrary, also malformed, archives. -/
-theorem load_ok_wellformed (ty : Ty) (b : Bytes) (hb : b.length < 2 ^ 64) (v : Val ty) (s : St)
+theorem load_ok_wellformed [JsonCodec] (ty : Ty) (b : Bytes) (hb : b.length < 2 ^ 64) (v : Val ty) (s : St)
     (h : loadArchive ty b = .ok v s) : wf ty v = true := by
   have hg := load_good b hb ty St.init ⟨Nat.zero_le _, by intro iv hiv; cases hiv⟩
   unfold loadArchive at h
@@ -76,22 +78,53 @@ theorem prefix_bound_counterexample :
 
 /-- **Save then load gives the value back**, for every type of the universe and every well-formed value
 whose chunk payloads fit the `uint32_t` length field; the loader ends exactly at the end of the archive. -/
-theorem save_load_roundtrip (ty : Ty) (v : Val ty) (hw : wf ty v = true) (hf : sizesFit ty v = true)
-    (hlen : (save ty v).length < 2 ^ 64) :
+theorem save_load_roundtrip [JsonCodec] (ty : Ty) (v : Val ty) (hw : wf ty v = true) (hf : sizesFit ty v = true)
+    (hj : jsonRT ty v) (hlen : (save ty v).length < 2 ^ 64) :
     ∃ s, loadArchive ty (save ty v) = .ok v s ∧ s.ptr = (save ty v).length ∧ eof (save ty v) s = true := by
-  obtain ⟨r', h⟩ := save_load_rt (save ty v) hlen ty v hw hf 0 [] (At_self _)
+  obtain ⟨r', h⟩ := save_load_rt (save ty v) hlen ty v hw hf hj 0 [] (At_self _)
   refine ⟨_, h, by simp, ?_⟩
   simp [eof, Gen.eofCond]
 
 /-- The same inside a larger archive: whatever was written before and after (`a << x << v << y`), loading
 at the position where `save ty v` starts returns `v` and leaves the cursor right behind it. -/
-theorem save_load_roundtrip_framed (ty : Ty) (v : Val ty) (hw : wf ty v = true) (hf : sizesFit ty v = true)
+theorem save_load_roundtrip_framed [JsonCodec] (ty : Ty) (v : Val ty) (hw : wf ty v = true) (hf : sizesFit ty v = true)
+    (hj : jsonRT ty v)
     (pre post : Bytes) (reads : List (Nat × Nat)) (hlen : (pre ++ save ty v ++ post).length < 2 ^ 64) :
     ∃ reads', load (pre ++ save ty v ++ post) ty ⟨pre.length, reads⟩
       = .ok v ⟨pre.length + (save ty v).length, reads'⟩ := by
-  apply save_load_rt _ hlen ty v hw hf
+  apply save_load_rt _ hlen ty v hw hf hj
   refine ⟨by simp, ?_⟩
   simp [slice]
+
+/-! ## `json::value` members: the law comes from property C11 -/
+
+/-- The hypothesis `jsonRT` of the round-trip theorems, for the codec that C11 models (`c11Codec ops`: compact
+`value::save`, `value::load(…, full = true)`), **is C11's `write_parse_roundtrip_partial`**: a tree without undefined
+members, with valid UTF-8 strings and keys, objects in `std::map` order, at most 512 deep, whose numbers lie in a
+set `fin` on which the external conversions satisfy `NumLaw ops fin rt` and are fixed by one trip through text
+(`mapNum rt v = v`; C11 proves the text round trip only up to `rt`, the printed precision being IEEE arithmetic). -/
+theorem json_law_from_C11 {N : Type} (ops : C11.NumOps N) (fin : N → Prop) (rt : N → N)
+    (hlaw : C11.Spec.NumLaw ops fin rt) (v : C11.Value N)
+    (hu : C11.Spec.NoUndefined v) (hs : C11.Spec.AllStringsUtf8 v) (hf : C11.Spec.NumsFinite fin v)
+    (hk : C11.Spec.KeysSorted v) (hd : C11.Spec.depth v ≤ 512) (hfix : C11.Spec.mapNum rt v = v) :
+    @jsonRT (c11Codec ops) .json v := by
+  obtain ⟨text, h1, h2⟩ := C11.Props.write_parse_roundtrip_partial ops fin rt hlaw v hu hs hf hk hd false
+  rw [hfix] at h2
+  exact ⟨text, h1, h2⟩
+
+/-- A `json::value` saved to an archive and loaded back is the same tree — under C11's hypotheses (above) and
+the `uint32` guard on the length of its text. -/
+theorem json_value_roundtrip {N : Type} (ops : C11.NumOps N) (fin : N → Prop) (rt : N → N)
+    (hlaw : C11.Spec.NumLaw ops fin rt) (v : C11.Value N)
+    (hu : C11.Spec.NoUndefined v) (hs : C11.Spec.AllStringsUtf8 v) (hf : C11.Spec.NumsFinite fin v)
+    (hk : C11.Spec.KeysSorted v) (hd : C11.Spec.depth v ≤ 512) (hfix : C11.Spec.mapNum rt v = v)
+    (hfit : @sizesFit (c11Codec ops) .json v = true)
+    (hlen : (@save (c11Codec ops) .json v).length < 2 ^ 64) :
+    ∃ s, @loadArchive (c11Codec ops) .json (@save (c11Codec ops) .json v) = .ok v s := by
+  letI := c11Codec ops
+  obtain ⟨s, h, _⟩ := save_load_roundtrip .json v rfl hfit
+    (json_law_from_C11 ops fin rt hlaw v hu hs hf hk hd hfix) hlen
+  exact ⟨s, h⟩
 
 /-- **Session / cache convenience calls** (`session_interface::store_data` / `fetch_data`,
 `cache_interface::store_data` / `fetch_data`): they are `serialization_traits<T>::save` into a string, the
@@ -99,13 +132,13 @@ store's `set`/`store`, then `get`/`fetch` and `serialization_traits<T>::load` (t
 four bodies still have exactly this shape, `Gen.wrappersAreCompositions`).  For any store whose `get` returns
 what `set` stored under the key (that law is what properties C06 / C07 establish for the session and the
 cache; here it is the explicit hypothesis `hstore`), the object comes back unchanged. -/
-theorem wrappers_roundtrip {Store Key : Type} (set : Key → Bytes → Store → Store) (get : Key → Store → Bytes)
+theorem wrappers_roundtrip [JsonCodec] {Store Key : Type} (set : Key → Bytes → Store → Store) (get : Key → Store → Bytes)
     (hstore : ∀ k d σ, get k (set k d σ) = d)
-    (ty : Ty) (v : Val ty) (hw : wf ty v = true) (hf : sizesFit ty v = true) (hlen : (save ty v).length < 2 ^ 64)
-    (k : Key) (σ : Store) (_shape : Gen.wrappersAreCompositions = true) :
+    (ty : Ty) (v : Val ty) (hw : wf ty v = true) (hf : sizesFit ty v = true) (hj : jsonRT ty v)
+    (hlen : (save ty v).length < 2 ^ 64) (k : Key) (σ : Store) (_shape : Gen.wrappersAreCompositions = true) :
     ∃ s, loadArchive ty (get k (set k (save ty v) σ)) = .ok v s := by
   rw [hstore]
-  obtain ⟨s, h, _⟩ := save_load_roundtrip ty v hw hf hlen
+  obtain ⟨s, h, _⟩ := save_load_roundtrip ty v hw hf hj hlen
   exact ⟨s, h⟩
 
 /-- What `write_chunk` / `read_chunk_as_string` do for **any** payload, also beyond the `sizesFit` guard:
@@ -148,7 +181,7 @@ theorem string_chunk_truncates (data : Bytes) (hlen : (chunk data).length < 2 ^ 
   exact ⟨_, rfl⟩
 
 /-- Consequently the round trip of a `std::string` fails as soon as the guard fails. -/
-theorem string_roundtrip_fails_beyond_guard (data : Bytes) (hbig : 2 ^ 32 ≤ data.length)
+theorem string_roundtrip_fails_beyond_guard [JsonCodec] (data : Bytes) (hbig : 2 ^ 32 ≤ data.length)
     (hlen : (chunk data).length < 2 ^ 64) :
     ∀ s, loadArchive .str (save .str data) ≠ .ok data s := by
   intro s h
@@ -162,6 +195,10 @@ theorem string_roundtrip_fails_beyond_guard (data : Bytes) (hbig : 2 ^ 32 ≤ da
   omega
 
 /-! ## non-vacuity: concrete instances of the hypotheses and of both outcomes -/
+
+/-- for the examples: a codec whose values are their own text -/
+local instance : JsonCodec := ⟨Bytes, some, some⟩
+
 
 /-- `std::map<std::string, std::vector<uint16_t>>` with two entries, `shared_ptr`, a set: well-formed and within the guard -/
 example : wf (.map .str (.vecPod 2)) [([97], [1, 0, 2, 0]), ([98, 0], [])] = true
@@ -183,6 +220,21 @@ example : ∀ (k : Unit) (d : Bytes) (σ : Bytes), (fun (_ : Unit) (σ : Bytes) 
 /-- a malformed set archive (elements 2, 1, 2 in that order) loads as the sorted, duplicate-free set {1, 2} -/
 example : ∃ s, loadArchive (.set (.pod 1)) [8,0,0,0, 3,0,0,0,0,0,0,0, 1,0,0,0, 2, 1,0,0,0, 1, 1,0,0,0, 2] = .ok [[1], [2]] s :=
   ⟨_, rfl⟩
+
+/-- the hypotheses of `json_law_from_C11` / `json_value_roundtrip` are met by `{"a":[1,"x",null]}` with the
+executable binary64 conversions (`NumLaw` for the set `{1.0}`, `rt = id`: C11's `numLaw_one`) -/
+example : @jsonRT (c11Codec C11.F64.ops) .json (.obj [([97], .arr [.num C11.Props.one, .str [120], .null])]) := by
+  open C11 C11.Spec in
+  refine json_law_from_C11 C11.F64.ops (fun x => x = C11.Props.one) id C11.Props.numLaw_one _
+    (by simp [NoUndefined, Forall, ForallM, ForallL, DefinedNode])
+    (by
+      have u1 : Utf8 [97] := by simpa using Utf8.cons [97] [] (Utf8Char.u1 97 (by decide)) Utf8.nil
+      have u2 : Utf8 [120] := by simpa using Utf8.cons [120] [] (Utf8Char.u1 120 (by decide)) Utf8.nil
+      simp [AllStringsUtf8, Forall, ForallM, ForallL, StrNode, keys, u1, u2])
+    (by simp [NumsFinite, Forall, ForallM, ForallL, FinNode])
+    (by simp [KeysSorted, Forall, ForallM, ForallL, SortedNode, keys])
+    (by decide +kernel)
+    (by simp [mapNum, mapNumM, mapNumL])
 
 /-- an unsorted "set" is not a value of the type -/
 example : wf (.set (.pod 4)) [[0, 1, 0, 0], [1, 0, 0, 0]] = false := by decide
